@@ -28,9 +28,9 @@ RULE = (
 EXPLANATION = "exhaustive bounded enumeration of the annotated? x traced? x strategy matrix against the real stub builder"
 ASSUMPTIONS = ["the IGNORE / annotated / untraced cell is left open by the property (source annotation or nothing accepted)", "a traced type on a None-default parameter may be shown as Optional[T]"]
 
-ANN_KINDS = ["class", "generic", "optional", "string", "newtype", "rewritable"]
-ANN_SRC = {"class": "int", "generic": "List[int]", "optional": "Optional[int]", "string": "'int'", "newtype": "UserId", "rewritable": "Union[Dict[str, int], Dict[str, str]]"}
-RESULT_KINDS = ["ret", "yield", "yield+ret", "yield+none", "exc"]
+ANN_KINDS = ["class", "generic", "optional", "string", "newtype", "rewritable", "pep585"]
+ANN_SRC = {"class": "int", "generic": "List[int]", "optional": "Optional[int]", "string": "'int'", "newtype": "UserId", "rewritable": "Union[Dict[str, int], Dict[str, str]]", "pep585": "dict[str, list[int]]"}
+RESULT_KINDS = ["ret", "yield", "yield+ret", "yield+none", "exc", "yield+ret-or-none"]
 FKINDS = ["function", "method", "classmethod", "function_selfname", "static_clsname", "decorated"]
 T_PARAM, T_RET, T_YIELD = str, bytes, float
 
@@ -48,7 +48,7 @@ def ann_obj(kind: str, mod) -> Any:
     from typing import Dict as _D
     from typing import Union as _U
 
-    return {"class": int, "generic": List[int], "optional": Optional[int], "string": int, "newtype": mod.UserId, "rewritable": _U[_D[str, int], _D[str, str]]}[kind]
+    return {"class": int, "generic": List[int], "optional": Optional[int], "string": int, "newtype": mod.UserId, "rewritable": _U[_D[str, int], _D[str, str]], "pep585": dict[str, list[int]]}[kind]
 
 
 def param_lists(tier: str) -> List[Tuple[G.Param, ...]]:
@@ -124,9 +124,12 @@ def make_traces(mod, metas, traced_mask: int, rk: str):
         arg_types = {nm: (T_PARAM if (i + traced_mask) % 3 else FalsyClass) for i, nm in enumerate(m["names"]) if traced_mask & (1 << i)}
         if m["recv"]:
             arg_types[m["recv"]] = mod.C1 if m["recv"] == "self" else Type_of(mod.C1)
-        ret = {"ret": T_RET, "yield": None, "yield+ret": T_RET, "yield+none": O.NoneType, "exc": None}[rk]
+        ret = {"ret": T_RET, "yield": None, "yield+ret": T_RET, "yield+none": O.NoneType, "exc": None, "yield+ret-or-none": T_RET}[rk]
         yld = None if rk in ("ret", "exc") else T_YIELD
         out.append(CallTrace(live(mod, m), arg_types, ret, yld))
+        if rk == "yield+ret-or-none":
+            # a second run of the same generator fell off the end
+            out.append(CallTrace(live(mod, m), dict(arg_types), O.NoneType, T_YIELD))
         if rk != "exc":
             out.append(CallTrace(live(mod, m), dict(arg_types), None, None))   # the same call once ended with an exception
     return out
@@ -139,7 +142,7 @@ def Type_of(c):
 
 
 def traced_return(rk: str) -> Any:
-    return {"ret": T_RET, "yield": Iterator[T_YIELD], "yield+ret": Generator[T_YIELD, None, T_RET], "yield+none": Iterator[T_YIELD], "exc": None}[rk]
+    return {"ret": T_RET, "yield": Iterator[T_YIELD], "yield+ret": Generator[T_YIELD, None, T_RET], "yield+none": Iterator[T_YIELD], "exc": None, "yield+ret-or-none": Generator[T_YIELD, None, Optional[T_RET]]}[rk]
 
 
 def _is_opt(t) -> bool:
